@@ -2,6 +2,7 @@ package ast
 
 import (
 	"bytes"
+	"math"
 	"strconv"
 	"strings"
 
@@ -34,6 +35,11 @@ func NewNumber(id *token.Token) (ExpNode, error) {
 		n, err = strconv.ParseUint(nstring, 16, 64)
 	} else {
 		n, err = strconv.ParseUint(nstring, 10, 64)
+		if err == nil && n > math.MaxInt64 {
+			// A decimal integer numeral that does not fit a (signed) integer
+			// denotes a float, like larger ones below.
+			err = strconv.ErrRange
+		}
 		// If an integer is too big let's make it a float
 		if err != nil {
 			f, err := strconv.ParseFloat(nstring, 64)
